@@ -39,6 +39,7 @@ type Profile struct {
 	NoFinishExits      bool
 	ShutdownCfg        bool // some processes carry a shutdown.command or a shutdown.timeout_seconds
 	ReplicatedLeaves   bool // processes nobody depends on may have 2-3 replicas
+	DaemonPct          int  // percent of the processes that are daemons with a shutdown.command (which may fail)
 }
 
 // OnExclude is told when the generator avoids the class of a known finding by construction.
@@ -146,7 +147,12 @@ func GenProject(t *rapid.T, pr Profile) *sc.Scenario {
 		if pr.BadDir && pct(t, 8, "baddir") {
 			p.BadDir = true
 		}
-		if pr.ShutdownCfg {
+		if pct(t, pr.DaemonPct, "daemon") {
+			// the launcher exits, the daemon counts as Launched until its shutdown.command has run
+			p.Daemon = true
+			p.Restart = "no"
+			p.ShutdownCmd = pick(t, []string{"true", "false"}, "daemonstopcmd")
+		} else if pr.ShutdownCfg {
 			if pct(t, 15, "shutcmd") {
 				p.ShutdownCmd = "true"
 				if pct(t, 30, "shutcmd+timeout") {
